@@ -1072,6 +1072,12 @@ func UtxoValidateInsufficientCollateral(
 			totalCollateral.Add(totalCollateral, amount)
 		}
 	}
+	// The collateral balance is what remains after the collateral return
+	if collReturn := tx.CollateralReturn(); collReturn != nil {
+		if amount := collReturn.Amount(); amount != nil {
+			totalCollateral.Sub(totalCollateral, amount)
+		}
+	}
 	fee := tx.Fee()
 	if fee == nil {
 		fee = new(big.Int)
